@@ -256,7 +256,7 @@ pub fn grow_alphabet(n: usize, len: usize) -> Vec<Act> {
         v.push(Extend(mm));
         v.push(ExtendFromSlice(mm));
         // the iterator's size_hint is part of the input: exact, loose upper bound, lower bound only
-        for h in [0, 2, 3, 4] {
+        for h in [0, 2, 3, 4, 5, 6, 7] {
             v.push(ExtendHint(mm, h));
         }
         v.push(ExtendPairs(mm));
